@@ -29,7 +29,7 @@ StaticOK(e) == LET c == Prescribed(e.kinds) IN
                /\ e.cls = c /\ e.nout = 0 /\ e.nbytes = 0
                /\ e.check = c /\ e.checkAfter = c /\ e.names
 Step(cur, e, i) ==
-  IF e.ev = "reset" THEN [st |-> InitState, skip |-> FALSE]
+  IF e.ev = "reset" THEN [st |-> WithModules(InitState, e.mods), skip |-> FALSE]
   ELSE IF cur.skip THEN cur
   ELSE IF e.ev = "static" THEN
        IF StaticOK(e) THEN cur
@@ -39,10 +39,10 @@ Step(cur, e, i) ==
   ELSE LET r == EvalChunk(cur.st, e.ast) IN
        IF Skip(r.exc) THEN [st |-> cur.st, skip |-> PrintT(<<"BAD", i, "oom", r.exc.why>>)]
        ELSE IF \E q \in 1..Len(r.out) : Opaque(r.out[q]) THEN [st |-> cur.st, skip |-> PrintT(<<"BAD", i, "oom", "opaque value in the output">>)]
-       ELSE IF SeqMatches(r.out, e.out) /\ CauseMatches(r.exc, e.exc) THEN [st |-> r.st, skip |-> FALSE]
+       ELSE IF SeqMatches(r.out, e.out) /\ r.bytes = e.bytes /\ CauseMatches(r.exc, e.exc) THEN [st |-> r.st, skip |-> FALSE]
        ELSE [st |-> r.st,
              skip |-> PrintT(<<"BAD", i, "mismatch",
-                               ToJson([out |-> [j \in 1..Len(r.out) |-> Show(r.out[j])], exc |-> ShowCause(r.exc)])>>)]
+                               ToJson([out |-> [j \in 1..Len(r.out) |-> Show(r.out[j])], bytes |-> r.bytes, exc |-> ShowCause(r.exc)])>>)]
 Next == pos < Len(Cases) /\ pos' = pos + 1 /\ w' = Step(w, Cases[pos + 1], pos + 1)
 Inv == TRUE
 =============================================================================
